@@ -1076,6 +1076,9 @@ func (c *c42run) corpus() {
 	// distinct types with the same qualified identifier at different locations, different field orders
 	// and field counts, in one value (array elements, nested field, dictionary values, type values)
 	c.sameNameCorpus(func(v cadence.Value, origin string) { c.roundTrip(v, origin, "", true) })
+	// composites mixing abstract-typed fields with fields whose type mentions a composite type that no
+	// value mentions (nil optional, empty array / dictionary), in every field order, nested
+	hiddenTypeValues(func(v cadence.Value, origin string) { c.roundTrip(v, origin, "", false) })
 	// recursive types, capabilities, functions, optional chains
 	rf := make([]cadence.Field, 2)
 	rec := cadence.NewResourceType(loc, "Node", rf, nil)
@@ -1346,4 +1349,93 @@ func sameNameValues(run func(v cadence.Value, origin string)) {
 	e1 := cadence.NewEnum([]cadence.Value{cadence.UInt8(1)}).WithType(cadence.NewEnumType(addr(1), "C.Kind", cadence.UInt8Type, []cadence.Field{{Identifier: "rawValue", Type: cadence.UInt8Type}}, nil))
 	e2 := cadence.NewEnum([]cadence.Value{cadence.Int16(-2)}).WithType(cadence.NewEnumType(addr(2), "C.Kind", cadence.Int16Type, []cadence.Field{{Identifier: "rawValue", Type: cadence.Int16Type}}, nil))
 	run(anyArr(e1, e2, s1), "corpus:same-name:enum")
+}
+
+
+// hiddenTypeValues: a composite type (every kind) with 2-4 fields: abstract-typed ones (AnyStruct,
+// AnyResource, interface, intersection) and ones of type Inner? / [Inner] / {String: Inner} /
+// Capability<&Inner> whose values are nil / empty, so that Inner is only reachable through the declared
+// field types of the outer type; every order of the fields; also one level deeper.
+func hiddenTypeValues(run func(v cadence.Value, origin string)) {
+	loc := common.StringLocation("test")
+	inner := cadence.NewStructType(loc, "Inner", []cadence.Field{{Identifier: "y", Type: cadence.IntType}, {Identifier: "x", Type: cadence.StringType}}, nil)
+	inner2 := cadence.NewResourceType(loc, "InnerR", []cadence.Field{{Identifier: "b", Type: cadence.IntType}, {Identifier: "a", Type: cadence.IntType}}, nil)
+	iface := cadence.NewStructInterfaceType(loc, "I", nil, nil)
+	impl := cadence.NewStructType(loc, "Impl", []cadence.Field{{Identifier: "n", Type: cadence.IntType}}, nil)
+	implV := cadence.NewStruct([]cadence.Value{cadence.NewInt(7)}).WithType(impl)
+	type fld struct {
+		f cadence.Field
+		v cadence.Value
+	}
+	abstract := []fld{
+		{cadence.Field{Identifier: "any", Type: cadence.AnyStructType}, cadence.NewInt(1)},
+		{cadence.Field{Identifier: "res", Type: cadence.AnyResourceType}, cadence.String("r")},
+		{cadence.Field{Identifier: "ifc", Type: iface}, implV},
+		{cadence.Field{Identifier: "itx", Type: cadence.NewIntersectionType([]cadence.Type{iface})}, implV},
+		{cadence.Field{Identifier: "oa", Type: cadence.NewOptionalType(cadence.AnyStructType)}, cadence.NewOptional(cadence.Bool(true))},
+	}
+	hidden := func(t cadence.Type, tag string) []fld {
+		dt := cadence.NewDictionaryType(cadence.StringType, t)
+		at := cadence.NewVariableSizedArrayType(t)
+		return []fld{
+			{cadence.Field{Identifier: "opt" + tag, Type: cadence.NewOptionalType(t)}, cadence.NewOptional(nil)},
+			{cadence.Field{Identifier: "arr" + tag, Type: at}, cadence.NewArray(nil).WithType(at)},
+			{cadence.Field{Identifier: "dic" + tag, Type: dt}, cadence.NewDictionary(nil).WithType(dt)},
+			{cadence.Field{Identifier: "zcap" + tag, Type: cadence.NewOptionalType(cadence.NewCapabilityType(cadence.NewReferenceType(cadence.UnauthorizedAccess, t)))}, cadence.NewOptional(nil)},
+		}
+	}
+	plain := fld{cadence.Field{Identifier: "n", Type: cadence.UInt8Type}, cadence.UInt8(3)}
+	mk := func(kind string, name string, fs []fld) cadence.Value {
+		fields := make([]cadence.Field, len(fs))
+		vals := make([]cadence.Value, len(fs))
+		for i, x := range fs {
+			fields[i], vals[i] = x.f, x.v
+		}
+		switch kind {
+		case "resource":
+			return cadence.NewResource(vals).WithType(cadence.NewResourceType(loc, name, fields, nil))
+		case "event":
+			return cadence.NewEvent(vals).WithType(cadence.NewEventType(loc, name, fields, nil))
+		case "contract":
+			return cadence.NewContract(vals).WithType(cadence.NewContractType(loc, name, fields, nil))
+		case "attachment":
+			return cadence.NewAttachment(vals).WithType(cadence.NewAttachmentType(loc, name, inner, fields, nil))
+		}
+		return cadence.NewStruct(vals).WithType(cadence.NewStructType(loc, name, fields, nil))
+	}
+	var perms func(fs []fld, k int, f func([]fld))
+	perms = func(fs []fld, k int, f func([]fld)) {
+		if k == len(fs) {
+			f(append([]fld(nil), fs...))
+			return
+		}
+		for i := k; i < len(fs); i++ {
+			fs[k], fs[i] = fs[i], fs[k]
+			perms(fs, k+1, f)
+			fs[k], fs[i] = fs[i], fs[k]
+		}
+	}
+	kinds := []string{"struct", "resource", "event", "contract", "attachment"}
+	n := 0
+	for ai, a := range abstract {
+		for hi, h := range hidden(inner, "") {
+			kind := kinds[(ai+hi)%len(kinds)]
+			// two fields, both orders; three and four fields, all orders
+			perms([]fld{a, h}, 0, func(fs []fld) { n++; run(mk(kind, "Outer", fs), "corpus:hidden-type:2") })
+			perms([]fld{a, h, plain}, 0, func(fs []fld) { n++; run(mk(kinds[n%len(kinds)], "Outer", fs), "corpus:hidden-type:3") })
+			if hi == 0 {
+				h2 := hidden(inner2, "R")[(ai+1)%4]
+				perms([]fld{a, h, plain, h2}, 0, func(fs []fld) { n++; run(mk(kinds[n%len(kinds)], "Outer", fs), "corpus:hidden-type:4") })
+			}
+		}
+	}
+	// nested: the composite with the hidden type is itself a field value / array element / optional
+	for _, order := range [][]fld{{abstract[0], hidden(inner, "")[0]}, {hidden(inner, "")[1], abstract[2]}, {abstract[3], plain, hidden(inner2, "R")[2]}} {
+		mid := mk("struct", "Mid", order)
+		outer := mk("struct", "Outer2", []fld{abstract[0], {cadence.Field{Identifier: "mid", Type: mid.Type()}, mid}})
+		run(outer, "corpus:hidden-type:nested")
+		outer = mk("resource", "Outer2", []fld{{cadence.Field{Identifier: "mid", Type: cadence.NewOptionalType(mid.Type())}, cadence.NewOptional(mid)}, abstract[0]})
+		run(outer, "corpus:hidden-type:nested")
+		run(cadence.NewArray([]cadence.Value{mid, cadence.NewInt(1)}).WithType(cadence.NewVariableSizedArrayType(cadence.AnyStructType)), "corpus:hidden-type:nested")
+	}
 }
